@@ -4,6 +4,7 @@
 tier=${1:-quick}; shift 2>/dev/null
 ids=${*:-C01 C02 C03 C04 C05 C06 C07 C08 C09 C10 C11 C12 C13 C14 C15 C16 C17 C18 C19 C20}
 cd "$(dirname "$0")/.."
+mkdir -p .work
 /venv/bin/python tools/setup.py >/dev/null 2>&1
 for id in $ids; do
   start=$(date +%s)
